@@ -254,6 +254,10 @@ func init() {
 					emit(fmtCase{P: Params{t, "NONE", 262144, 2, 32, -1, false, false}, Shape: sh, Len: 262144 + 50000, Jobs: 2})
 				}
 			}
+			// 3 MiB blocks dominated by one symbol (frequency / index headers in their longest forms)
+			for _, t := range []string{"SRT", "BWT+SRT+ZRLT", "RLT", "ZRLT", "MTFT", "RANK", "BWTS", "LZP", "TEXT+UTF+BWT+SRT+ZRLT"} {
+				emit(fmtCase{P: Params{t, "NONE", 4 << 20, 1, 32, -1, false, false}, Shape: "dominant", Len: 3 << 20, Jobs: 1})
+			}
 			// block-size ladder: codecs pick table sizes / model parameters from the block size
 			// (TPAQ at 1, 4, 8, 16 MiB..., text codec, ROLZ, BWT at 4 MiB): one block per stream
 			ladder := pick(c, []int{600000, 1200000}, []int{100000, 300000, 600000, 1200000, 2500000, 4500000, 9000000, 17000000})
